@@ -179,6 +179,7 @@ func genC20(t *rapid.T) interface{} {
 }
 
 type c20Node struct {
+	handle    *DetachableBackend
 	env       *SeqEnv
 	rec       *MetricsRecorder
 	etcdSrv   *etcd.RPCServer
@@ -210,8 +211,10 @@ func newC20NodeRole(follower bool, sync string, proxy bool) (*c20Node, error) {
 		peers.SyncFn = func() error { return fmt.Errorf("get revision from leader failed") }
 	}
 	n := &c20Node{env: env, rec: rec, follower: follower, syncFails: follower && sync == "error", shim: shim}
-	n.etcdSrv = etcd.New(env.B, rec, peers)
-	n.brainSrv = brain.New(env.B, rec, peers)
+	// the servers get a detachable handle: brain.New starts a loop that never ends and would keep the backend alive
+	n.handle = NewDetachable(env.B)
+	n.etcdSrv = etcd.New(n.handle, rec, peers)
+	n.brainSrv = brain.New(n.handle, rec, peers)
 	ctx, cancel := context.WithCancel(context.Background())
 	n.cancel = cancel
 	ch, err := env.B.Watch(ctx, Prefix+"/canary/", 0)
@@ -225,6 +228,7 @@ func newC20NodeRole(follower bool, sync string, proxy bool) (*c20Node, error) {
 func (n *c20Node) close() {
 	n.cancel()
 	n.env.Close()
+	n.handle.Detach()
 }
 
 // canary: the node still serves correctly — a fresh key becomes readable, reads back, and is watchable
